@@ -41,9 +41,9 @@ CHECKS = {
         design='6 C03'),
     'C04': dict(
         text='Everything in operation.py runs on symbolic complex tensors; vdot, norm, operator averages, traces, and the projection identity '
-             '<B|H_loc A> = <Psi(B)|H|Psi(A)> for every site, two-site and zero-site variant are decided as polynomial identities by SMT (L<=3, D<=2; thorough: local applications at L=4, d=3, D=3; '
+             '<B|H_loc A> = <Psi(B)|H|Psi(A)> for every site, two-site and zero-site variant are decided as polynomial identities by SMT (L<=3, D<=2, product-state chains L<=6; thorough: local applications at L=4, d=3, D=3; '
              'bra/ket/operator profiles independent). Entries universally quantified => every block-sparse instance covered.',
-        note='Trusts sqrt contract for norm(), z3, engine. Hermiticity premise imposed structurally on the MPO tensors. Outside: L>3, D>2, d>2, rounding.',
+        note='Trusts sqrt contract for norm(), z3, engine. Hermiticity premise imposed structurally on the MPO tensors. Outside: L>3 with D>1 (a concrete sweep runs L=4..8; sampling), D>2, d>2, rounding.',
         design='6 C04'),
     'C05': dict(
         text='from_opchains/from_opgraph run with symbolic coefficients and symbolic interleaved charges over ALL chain-list skeletons in the bound '
@@ -99,7 +99,7 @@ CHECKS = {
         text='from_optrees and from_automaton run over tree / automaton skeletons generated inside the exploration with symbolic coefficients, node charges, '
              'site-dependent active/opics callables; result graphs vs sum over root-to-leaf paths resp. DP over automaton paths; as_matrix of chains, trees, graphs '
              'vs word semantics under a symbolic operator map; all decided by SMT per path.',
-        note='Trusts z3, engine, oracles. Tree nodes coinciding with terminal nodes carry charge 0 (else RuntimeError by design). Outside: larger trees/automata/L (trees: L<=5 quick, 6 thorough with small trees; automata L<=3, 4 thorough).',
+        note='Trusts z3, engine, oracles. Tree nodes coinciding with terminal nodes carry charge 0 (else RuntimeError by design). Outside: larger trees/automata/L (trees: L<=5 quick, 6 thorough with small trees; automata: 3 nodes in every hand-over order, two terminal choices, L<=3, 4 thorough).',
         design='6 C17'),
     'C18': dict(
         category='exploration',
@@ -111,7 +111,7 @@ CHECKS = {
     'C19': dict(
         text='Identity/aliasing monitors on the same symbolic executions as C02 plus scalar-valued operations, dense conversion, block QR/SVD/truncation and graph constructors: '
              'operands snapshotted elementwise (object arrays hold immutable scalars => bit-for-bit), results share no array / list / node object with operands, follow-up mutation '
-             'of results leaves operands intact, in-place algorithms touch only their documented target (never the Hamiltonian or the other graph). Every charge pattern is a path, '
+             'of results leaves operands intact, in-place algorithms touch only their documented target (never the Hamiltonian or the other graph; the attribute set of such objects is compared too). Every charge pattern is a path, '
              'which matters because copying depends on e.g. the already-sorted shortcut.',
         note='Monitors are concrete per path; the paths come from symbolic execution (z3 feasibility). Outside: dtype-dependent in-place casting, shapes beyond the bound. Observed but outside the '
              'property as stated: qr/split_matrix_svd return a view q0[:1] in the no-common-charge branch; as_vector of a single-site MPS is a view.',
